@@ -33,7 +33,9 @@ const retAddressArrayConst = 3
 
 func updateChar(pj *internalParsedJson, idx_in uint64) (done bool, idx uint64) {
 	if pj.indexesChan.index >= pj.indexesChan.length {
+		verifEvent(verifEvRelease, pj, 0, 0, pj.indexesChan.indexes)
 		pj.indexesChan = <-pj.indexChans // Get next element from channel
+		verifEvent(verifEvRecv, pj, uint64(int64(pj.indexesChan.index)), uint64(pj.indexesChan.length), pj.indexesChan.indexes)
 		done = pj.indexesChan.index == -1
 		if done {
 			return
